@@ -381,17 +381,19 @@ fn cfgs() -> Vec<Cfg> {
         c("P0", false, "init", None, &[], false),
         c("P1", false, "index", None, &[], false),
         c("P2", false, "init.luau", None, &[], false),
-        c("P3", false, "init", Some(""), &[("pkg", "pkg"), ("@pkg", "pkg"), ("deep", "pkg/b"), ("@deep", "pkg/b"), ("up", "../lib")], false),
-        c("P4", false, "init", Some("."), &[("pkg", "./pkg"), ("@pkg", "./pkg")], false),
-        c("P5", false, "init", Some("/project"), &[("pkg", "pkg"), ("@pkg", "pkg"), ("abs", "/abs"), ("@abs", "/abs")], false),
-        c("P6", false, "init", Some(""), &[("pkg", "pkg")], true),
+        c("P3", false, "init", Some(""), &[("pkg", "pkg"), ("@deep", "pkg/b"), ("up", "../lib"), ("vendor", "lib")], false),
+        c("P4", false, "init", Some("."), &[("pkg", "./pkg")], false),
+        c("P5", false, "init", Some("/project"), &[("pkg", "pkg"), ("abs", "/abs")], false),
+        c("P6", false, "init", Some(""), &[("pkg", "pkg"), ("@pkg", "lib")], true),
         c("P7", false, "init", Some(""), &[], false),
+        c("P8", false, "init", Some(""), &[("@pkg", "./pkg")], false),
         c("U0", true, "init", None, &[], false),
-        c("U3", true, "init", Some(""), &[("@pkg", "pkg"), ("@deep", "pkg/b"), ("@up", "../lib"), ("pkg", "pkg")], false),
+        c("U3", true, "init", Some(""), &[("@pkg", "pkg"), ("@deep", "pkg/b"), ("@up", "../lib"), ("vendor", "lib")], false),
         c("U4", true, "init", Some("."), &[("@pkg", "./pkg")], false),
         c("U5", true, "init", Some("/project"), &[("@pkg", "pkg"), ("@abs", "/abs")], false),
         c("U6", true, "init", Some(""), &[("@pkg", "pkg")], true),
         c("U7", true, "init", Some(""), &[], false),
+        c("U8", true, "init", Some(""), &[("@pkg", "./pkg")], false),
     ]
 }
 
@@ -428,7 +430,7 @@ fn layouts() -> Vec<Layout> {
     // .luaurc aliases
     let mut with_rc = l(
         "LR",
-        &["pkg/b.lua", "pkg/b/init.luau", "src/vendor/b.lua", "src/vendor/b.luau", "src/pkg/b.lua", "rc/b.lua"],
+        &["pkg/b.lua", "pkg/b/init.luau", "src/vendor/b.lua", "src/vendor/b.luau", "src/pkg/b.lua", "rc/b.lua", "lib/b.lua"],
         &["src/a.lua", "src/init.lua", "main.lua", "src/sub/c.lua", "src/sub/init.luau"],
     );
     with_rc.rc = vec![
@@ -447,7 +449,7 @@ const COMMON: &[&str] = &[
     "./b/index", "./b/index.lua", "./index", "@unknown/b", "unknown/b", "/abs/b", "/abs/b.lua", "/project/src/b",
     "pkg/b", "@pkg/b", "@pkg/b.lua", "@pkg/b/c", "@pkg", "pkg", "@deep", "@deep/c", "deep/c", "@pkg/../pkg/b", "@pkg/./b",
     "@up/b", "up/b", "@abs/b", "abs/b", "../../x", "../x", "../../../x", "./x", "../../lib/b", "@root/src/b", "@here/c", "@pkg/b/init",
-    "./init.txt", "./b.txt.lua", "./.luau.lua", "../up/a", "./sub/a", "./a", "../a",
+    "./init.txt", "./b.txt.lua", "./.luau.lua", "../up/a", "./sub/a", "./a", "../a", "vendor/b", "../pkg/b", "./pkg/b", "/b", "../../../b",
 ];
 
 fn lits_for(layout: &str, quick: bool) -> Vec<&'static str> {
@@ -459,13 +461,13 @@ fn lits_for(layout: &str, quick: bool) -> Vec<&'static str> {
                   "./x/../b", "../src/b", "./sub/../b", "../b", "b", "src/b", "./src/b", "@self/b", "@self", "@self/../b", ".", "..", "./", "",
                   "./b.txt", "./b.", "./init", "./init.lua", "../init", "./sub", "./c", "../c", "@unknown/b", "unknown/b", "./a", "../a"],
         "LB" => &["./b", "./b.lua", "./b/index", "./b/index.lua", "./b/init", "./b/init.luau", "./index", "../b", "@self/b", "."],
-        "LC" => &["./b", "../b", "../lib/b", "./sub/b", "../sub/b", "../../b", "b", "src/b", "@self/b", "@self/sub/b", "@self/../b", "../src/b", "./sub/../b", "../../lib/b"],
+        "LC" => &["vendor/b", "up/b", "@up/b", "./b", "../b", "../lib/b", "./sub/b", "../sub/b", "../../b", "b", "src/b", "@self/b", "@self/sub/b", "@self/../b", "../src/b", "./sub/../b", "../../lib/b"],
         "LD" => &["pkg/b", "@pkg/b", "@pkg/b.lua", "@pkg/b/c", "@pkg", "pkg", "@deep", "@deep/c", "deep/c", "@pkg/../pkg/b", "@pkg/./b", "@pkg/b/init",
                   "../pkg/b", "./pkg/b", "@unknown/b", "@up/b"],
         "LE" => &["../../x", "../x", "../../../x", "./x", "/abs/b", "/abs/b.lua", "@abs/b", "abs/b", "@up/b", "up/b", "../../lib/b", "../up/a", "./sub/a", "./a", "../a"],
         "LF" => &["./b", "./b.lua", "../b", "../../b", "/project/src/b", "/abs/b", "@pkg/b", "pkg/b", "@abs/b", "@self/b", "../src/b", "../../../b", "/b"],
         "LG" => &["./b.lua.lua", "./b.lua", "./b.txt", "./b.txt.lua", "./b.", "./.luau", "./.luau.lua", "./init.txt", "./init", "./b", "."],
-        "LR" => &["@pkg/b", "pkg/b", "@root/src/a", "@root/pkg/b", "@here/c", "@unknown/b", "./b"],
+        "LR" => &["@pkg/b", "pkg/b", "@root/src/a", "@root/pkg/b", "@here/c", "@unknown/b", "./b", "../pkg/b", "../lib/b"],
         _ => COMMON,
     };
     pick.to_vec()
@@ -487,7 +489,7 @@ fn cfgs_for(layout: &str) -> Vec<&'static str> {
         "LA" => vec!["P0", "U0", "P7", "U7"],
         "LB" => vec!["P0", "P1", "P2", "U0"],
         "LC" => vec!["P0", "U0", "P3", "U3"],
-        "LD" => vec!["P3", "P4", "U3", "U4", "P0", "U0"],
+        "LD" => vec!["P3", "P4", "U3", "U4", "P8", "U8"],
         "LE" => vec!["P0", "U0", "P3", "U3", "P5", "U5"],
         "LF" => vec!["P5", "U5", "P0", "U0"],
         "LG" => vec!["P0", "U0", "P2"],
@@ -502,7 +504,7 @@ fn pairs_for(layout: &str) -> Vec<(&'static str, &'static str)> {
         "LA" => vec![("P0", "U0"), ("U0", "P0"), ("P7", "U7"), ("U7", "P7")],
         "LB" => vec![("P1", "U0"), ("U0", "P1"), ("P2", "U0"), ("U0", "P2"), ("P0", "U0")],
         "LC" => vec![("P0", "U0"), ("U0", "P0"), ("P3", "U3"), ("U3", "P3")],
-        "LD" => vec![("P3", "U3"), ("U3", "P3"), ("P4", "U4"), ("U4", "P4")],
+        "LD" => vec![("P3", "U3"), ("U3", "P3"), ("P4", "U4"), ("U4", "P4"), ("P8", "U8"), ("U8", "P8")],
         "LE" => vec![("P0", "U0"), ("U0", "P0"), ("P3", "U3"), ("U3", "P3")],
         "LF" => vec![("P5", "U5"), ("U5", "P5"), ("P0", "U0"), ("U0", "P0")],
         "LG" => vec![("P0", "U0"), ("U0", "P0")],
